@@ -143,6 +143,21 @@ def run(ctx, rep):
     rep.check(any(" ".join(utext(s).split()) == "self.lookup = (self.market_id, self.selection_id, self.handicap)"
                   for s in walk_nodes(bo.node.body, ast.Assign)), "R3",
               key(bo, None, "order.lookup is (market_id, selection_id, handicap) - the key complete_trade uses"), bo)
+    # key agreement: every lookup of a runner context names the full key (market, selection, handicap)
+    grc = prog.own_method("BaseStrategy", "get_runner_context")
+    n_k = 0
+    for cs in res.call_sites_of(grc):
+        if cs.func.qual == "BaseStrategy.has_executable_orders":
+            continue
+        n_k += 1
+        c = cs.node
+        full = (len(c.args) == 1 and isinstance(c.args[0], ast.Starred) and utext(c.args[0].value).endswith(".lookup")) or \
+            (len(c.args) + len(c.keywords) == 3 and (len(c.args) == 3 and "handicap" in utext(c.args[2]) or
+                                                      any(k.arg == "handicap" for k in c.keywords)))
+        rep.check(full, "R3", key(cs.func, c, "runner context looked up by the full key (market, selection, handicap)"), cs.func, c,
+                  "a lookup without the handicap reads the handicap-0 context, which nothing charges or frees: limits and "
+                  "cool-downs are not enforced on other handicap lines")
+    rep.floor("R3", "runner context lookups", n_k, 4)
     # list discipline
     for attr in ("trades", "live_trades"):
         for f, s, t, kind in all_stores(prog, attr):
